@@ -652,8 +652,8 @@ class Gen:
             return "Unit"
         if ty in getattr(self, "enums", {}) or ty in getattr(self, "structs", {}):
             return ty
-        if ty == "Address":
-            return "Nat"     # an account / contract: an opaque identifier
+        if ty in ("Address", "MuxedAddress"):
+            return "Nat"     # an account / contract: an opaque identifier (a muxed address: its account)
         if ty == "Bytes32":
             return "B32"
         if ty.startswith("Vec<"):
@@ -799,6 +799,11 @@ class Gen:
             return (f"({{ {', '.join(parts)} }} : {e[1]})", e[1])
         if e[0] == "mcall" and e[2] == "clone" and not e[3]:
             return self.pure(e[1], env)
+        if e[0] == "mcall" and e[2] == "address" and not e[3]:
+            l, t = self.pure(e[1], env)
+            if t == "MuxedAddress":
+                return (l, "Address")
+            raise Unsupported(f".address() of {t}")
         if e == ("mcall", ("mcall", ("var", "e"), "ledger", []), "max_live_until_ledger", []) and "max_live_until_ledger" in getattr(self, "reads", {}):
             self.uses_reads = True
             return ("envr.max_live_until_ledger", self.reads["max_live_until_ledger"])
@@ -1356,6 +1361,17 @@ class Gen:
                 return self.tr_while(s, env, lambda env2: go(i + 1, env2), ret)
             if s[0] == "for":
                 return self.tr_for(s, env, lambda env2: go(i + 1, env2), ret)
+            if s[0] == "expr" and "authorized" in getattr(self, "reads", {}):
+                e = self.strip(s[1])
+                if e[0] == "mcall" and e[2] == "require_auth" and not e[3]:
+                    l, t = self.pure(e[1], env)
+                    if t != "Address":
+                        raise Unsupported("require_auth of " + t)
+                    self.uses_reads = True
+                    return f"(if (envr.authorized {l} = true) then\n {go(i + 1, env)}\n else\n Comp.panic)"
+                if e[0] == "call" and e[1][0] == "var" and e[1][1].startswith("emit_") and (self.cur_ns, e[1][1]) not in self.sigs:
+                    # event emission: not part of the functional state (events are compared by the correspondence run)
+                    return go(i + 1, env)
             if s[0] == "expr" and getattr(self, "store", None):
                 e = self.strip(s[1])
                 if e[0] == "mcall" and self.is_storage(e[1]):
@@ -1698,9 +1714,11 @@ STORE_FUNGIBLE = {"Fungible": {"Balance": (["Address"], "i128"), "TotalSupply": 
                                "Allowance": (["AllowanceKey"], "AllowanceData")}}
 STRUCTS_FUNGIBLE = {"AllowanceData": [("amount", "i128"), ("live_until_ledger", "u32")],
                     "AllowanceKey": [("owner", "Address"), ("spender", "Address")]}
-READS_FUNGIBLE = {"Fungible": {"ledger_sequence": "u32", "max_live_until_ledger": "u32"}}
+READS_FUNGIBLE = {"Fungible": {"ledger_sequence": "u32", "max_live_until_ledger": "u32", "authorized": "addr2bool"}}
 FILES_FUNGIBLE = [("Fungible", "packages/tokens/src/fungible/storage.rs",
-                   ["total_supply", "balance", "allowance_data", "allowance", "set_allowance", "spend_allowance", "update"])]
+                   ["total_supply", "balance", "allowance_data", "allowance", "set_allowance", "spend_allowance", "update",
+                    "approve", "transfer", "transfer_from", "mint"]),
+                  ("Fungible", "packages/tokens/src/fungible/extensions/burnable/storage.rs", ["burn", "burn_from"])]
 FILES_CONS = [("Consecutive", "packages/tokens/src/non_fungible/extensions/consecutive/storage.rs",
                ["find_bit_in_item", "find_bit_in_bucket"])]
 READS_MERKLE = {"Merkle": {"hash_pair": ("fn", ["Bytes32", "Bytes32"], "Bytes32"), "gt": "fn2bool"}}
@@ -1837,6 +1855,9 @@ def translate(repo, FILES=FILES, DEPS=(), imports=("OZ.Model.RustSem",), reads=N
             for rn, rt in reads[ns].items():
                 if rt == "fn2bool":
                     out.append(f"  {rn} : B32 → B32 → Bool")
+                    continue
+                if rt == "addr2bool":
+                    out.append(f"  {rn} : Nat → Bool")
                     continue
                 if isinstance(rt, tuple):
                     out.append(f"  {rn} : {' → '.join(g0.lean_ty(t_) for t_ in rt[1])} → Comp {g0.lean_ty(rt[2])}")
